@@ -24,7 +24,6 @@ def main():
         try:
             r2 = dict(rp)
             r2["doc"] = text
-            r2.pop("point", None)
             v = drv.replay(r2)
             if want_sig:
                 v = [x for x in v if (x.get("sig") or x.get("rule") or "").split(":")[0] == want_sig]
